@@ -77,6 +77,14 @@ CHECKS = {
     "C03": dict(level="exploration", engine="jsonenum",
                 jobs=lambda t: J("jsonenum", "prod-hsw", ["--prop", "C03"]) + J("jsonenum", "asan-wsm" if t == "thorough" else "prod-wsm", ["--prop", "C03"]),
                 rule="every accepted text: document compared with the reference tree through the public accessors only (type tests, Size, iteration order incl. duplicates, string bytes, number kind and bits, FindMember first match, operator[], AtPointer). Non-trivial: accepted text whose root is a container or longer than 4 bytes."),
+    "C10": dict(level="exploration", engine="ondemand",
+                jobs=lambda t: J("ondemand", "prod-hsw", ["--prop", "C10"]) + J("ondemand", "asan-hsw", ["--prop", "C10"]) +
+                (J("ondemand", "prod-wsm", ["--prop", "C10"]) if t == "thorough" else []),
+                rule="differential: for every valid text x pointer path, GetOnDemand succeeds <=> AtPointer on the fully parsed document resolves (and the reference lookup agrees); on success the slice lies inside the input and parses to the identical value, ParseOnDemand yields it; on failure error != 0, slice empty, ParseOnDemand errors and stays null. Evaluations count (text,path) pairs."),
+    "C11": dict(level="exploration", engine="ondemand",
+                jobs=lambda t: J("ondemand", "asan-hsw", ["--prop", "C11"]) + J("ondemand", "prod-hsw", ["--prop", "C11"]) +
+                (J("ondemand", "asan-wsm", ["--prop", "C11"]) + J("ondemand", "prod-wsm", ["--prop", "C11"]) if t == "thorough" else []),
+                rule="every text (valid or not, incl. empty and every truncation) x path: GetOnDemand/ParseOnDemand on an exact-size heap block (ASan) and on a buffer ending on the last mapped byte / starting right after a PROT_NONE page (production build): no fault; success => slice is a sub-range of the input and offset <= len; failure => slice empty. Evaluations count (text,path,placement) calls; non-trivial: text of >= 2 bytes."),
 }
 
 
